@@ -41,7 +41,9 @@ func c05MP(args []string) {
 		o.states++
 		for _, os := range c05OptSets {
 			o.evals++
-			mk := func() rt.Case { return rt.Case{Kind: "parsecall", Doc: name, Cfg: os.Name, X: map[string]string{"processors": "4"}} }
+			mk := func() rt.Case {
+				return rt.Case{Kind: "parsecall", Doc: name, Cfg: os.Name, X: map[string]string{"processors": "4"}}
+			}
 			o.begin(mk)
 			obj, err, pan := parseChecked(d, os.O)
 			if pan != "" || (obj == nil) == (err == nil) {
